@@ -477,6 +477,11 @@ func (g *Graph) invalidate(n *Node, val map[string]bool, keep map[string]bool) {
 		return
 	}
 	for k := range val {
+		if _, stipulated := keep[k]; stipulated {
+			// an assumption stipulates the outcome of every test of that condition (the rules
+			// using it separately establish that the tested option is never written)
+			continue
+		}
 		for _, w := range written {
 			if mentions(k, w) {
 				delete(val, k)
